@@ -788,9 +788,10 @@ def replay(obj, mod, rz, opts=frozenset()):
             if not st["prune"]:
                 if any(now_db.get(k) != v for k, v in begin[0].items()):
                     out.append(("C05", "commit-removed-existing-entry", {}))
-                extra = [k for k in now_db if k not in begin[0] and k not in stored]
-                if extra and not any(e["a"] in ("lose", "supply") or e.get("i") == 2 for e in h):
-                    out.append(("C05", "commit-added-intermediate-node", {"extra": extra[:3]}))
+            # pruning or not: whatever the commit added must be needed by the new root
+            extra = [k for k in now_db if k not in begin[0] and k not in stored]
+            if extra and not any(e["a"] in ("lose", "supply") or e.get("i") == 2 for e in h):
+                out.append(("C05", "commit-added-intermediate-node", {"extra": extra[:3], "prune": st["prune"]}))
     check_state(w, st, out, last)
     if st.get("nlost", 0) == 0 and "stored" in st:
         stored = rz.db(st["stored"])
